@@ -86,6 +86,9 @@ pub fn universe_by_label(label: &str, opts: &Opts) -> Universe {
     if label == "zst" {
         return vmodel::fixedgen::zst_universe();
     }
+    if label == "odd" {
+        return vmodel::fixedgen::odd_universe();
+    }
     if label == "replay" {
         let r = opts.replay.as_ref().and_then(|p| crate::read_json(&p.to_string_lossy())).expect("replay file");
         let mut u: Universe = serde_json::from_value(r["universe_inline"].clone()).expect("universe_inline");
